@@ -257,7 +257,10 @@ func init() {
 }
 
 type c06Session struct {
-	h       interface{ Read([]byte) (int, error); Write([]byte) (int, error) }
+	h interface {
+		Read([]byte) (int, error)
+		Write([]byte) (int, error)
+	}
 	counts  map[string]int
 	sawSyn  bool
 	aggMsgs int
@@ -265,7 +268,10 @@ type c06Session struct {
 	pending []byte
 }
 
-func newC06Session(h interface{ Read([]byte) (int, error); Write([]byte) (int, error) }) *c06Session {
+func newC06Session(h interface {
+	Read([]byte) (int, error)
+	Write([]byte) (int, error)
+}) *c06Session {
 	return &c06Session{h: h, counts: map[string]int{}, buf: make([]byte, 32*1024)}
 }
 
